@@ -1,12 +1,12 @@
 (* C05 - the property theorems, and nothing else.  Each is closed by [exact] of a lemma
-   of C05/{Proofs,Gabor,Gammatone,Response,Bank,Integrals}.v; the axioms each depends on are
+   of C05/{Proofs,Gabor,Gammatone,Response,Bank,Integrals,Gauss,GaborIntegrals}.v; the axioms each depends on are
    printed beneath it.  All are statements about gen/Banks.v and gen/Scales.v, which are
    regenerated from filters.py / util.py / config.py / scales.py on every run, through
    C05/Model.v. *)
 From Coq Require Import Reals ZArith Bool.
 From Flocq Require Import Core.Raux.
 From Coquelicot Require Import Coquelicot.
-From Verif Require Import gen.Scales gen.Banks C05.Model C05.Proofs C05.Gabor C05.Gammatone C05.Response C05.Bank C05.Integrals.
+From Verif Require Import gen.Scales gen.Banks C05.Model C05.Proofs C05.Gabor C05.Gammatone C05.Response C05.Bank C05.Integrals C05.Gauss C05.GaborIntegrals.
 Open Scope R_scope.
 
 Theorem mel_scale_ok :
@@ -319,6 +319,46 @@ Theorem gabor_l2_freq :
   forall std : R, 0 < std -> gabor_l2sq_freq true std = 1.
 Proof. exact gabor_l2_freq_l. Qed.
 Print Assumptions gabor_l2_freq.
+
+(* The Gaussian integral is PROVED (C05/Gauss.v), so the closed forms above are integrals of the filters *)
+Theorem gaussian_integral_value : forall a : R, 0 < a ->
+  is_RInt_gen (fun u => exp (- (a * u ^ 2))) (Rbar_locally m_infty) (Rbar_locally p_infty) (sqrt (PI / a)).
+Proof. exact gaussian_integral. Qed.
+Print Assumptions gaussian_integral_value.
+
+Theorem gauss_integral_is_integral : forall a : R, 0 < a ->
+  is_RInt_gen (fun u => exp (- (a * u ^ 2))) (Rbar_locally m_infty) (Rbar_locally p_infty) (gauss_integral a).
+Proof. exact gauss_integral_is_integral_l. Qed.
+Print Assumptions gauss_integral_is_integral.
+
+Theorem gabor_erb_is_integral : forall (l2 : bool) (std : R), 0 < std ->
+  is_RInt_gen (fun omega => (gabor_image l2 std 0 omega / gabor_image l2 std 0 0) ^ 2)
+              (Rbar_locally m_infty) (Rbar_locally p_infty) (gabor_erb_ang l2 std).
+Proof. exact gabor_erb_is_integral_l. Qed.
+Print Assumptions gabor_erb_is_integral.
+
+Theorem gabor_l2_time_is_integral : forall (l2 : bool) (std : R), 0 < std ->
+  is_RInt_gen (fun t => gabor_ir_abs l2 std t ^ 2)
+              (Rbar_locally m_infty) (Rbar_locally p_infty) (gabor_l2sq_time l2 std).
+Proof. exact gabor_l2_time_is_integral_l. Qed.
+Print Assumptions gabor_l2_time_is_integral.
+
+Theorem gabor_l2_freq_is_integral : forall (l2 : bool) (std : R), 0 < std ->
+  is_RInt_gen (fun omega => gabor_image l2 std 0 omega ^ 2 / (2 * PI))
+              (Rbar_locally m_infty) (Rbar_locally p_infty) (gabor_l2sq_freq l2 std).
+Proof. exact gabor_l2_freq_is_integral_l. Qed.
+Print Assumptions gabor_l2_freq_is_integral.
+
+Theorem gabor_unit_l2_norm_time : forall std : R, 0 < std ->
+  is_RInt_gen (fun t => gabor_ir_abs true std t ^ 2) (Rbar_locally m_infty) (Rbar_locally p_infty) 1.
+Proof. exact gabor_unit_l2_norm_time_l. Qed.
+Print Assumptions gabor_unit_l2_norm_time.
+
+Theorem gabor_unit_l2_norm_freq : forall std : R, 0 < std ->
+  is_RInt_gen (fun omega => gabor_image true std 0 omega ^ 2 / (2 * PI))
+              (Rbar_locally m_infty) (Rbar_locally p_infty) 1.
+Proof. exact gabor_unit_l2_norm_freq_l. Qed.
+Print Assumptions gabor_unit_l2_norm_freq.
 
 Theorem gabor_ir_fr_consistent :
   forall (l2 : bool) (std : R),
